@@ -95,3 +95,46 @@ PROPS["C08"] = dict(
     assumptions=["callers do not hold an AssetReadGuard while calling hot_reload",
                  "the events channel stays connected while the cache lives"],
 )
+
+PROPS["C07"] = dict(
+    technique="Coq proof over all lock-disciplined scripts, thread counts and schedules of a word-level "
+              "RwLock machine (no torn read; guard pins value and reload id; changes need the write "
+              "lock); write/read/map/try_map scripts and the name/arity call graph regenerated from "
+              "the source and checked by computation; reader-vs-reload-stream monitors on the real crate",
+    level_text="Theorems (Props/C07.v, closed under the global context): the printed UntypedEntry::write "
+               "is accepted by the discipline checker wf (swap + reload-id increment inside the write "
+               "lock) and the guards of read/map/try_map own the read lock; for every family of "
+               "accepted scripts, any number of threads and every schedule each completed read is one "
+               "version, value and reload id are constant while a guard is held, and they move only "
+               "inside a write critical section; in the code that section is reachable only from a "
+               "reload pass (call-graph lemma), which in local mode runs while the requesting caller is "
+               "inside hot_reload and is over when that caller is released (mailbox invariant).  "
+               "Partial: real tearing is a memory-model phenomenon (proof is at lock granularity); the "
+               "CacheKind Local/Static data flow is checked by the call graph, not by a theorem on state.",
+    level_note="Trusted: Coq kernel+VM, rs2v printer + call-graph dump (by name/arity), Rust/Script.v "
+               "extraction, RwLock mutual exclusion (std and parking_lot), unsafe swap_any/pointer casts "
+               "modelled by their intended effect.",
+    gen=["Entry", "CallGraph", "HotReloading"],
+    model_files=["Rust/Ast.v", "Rust/Syntax.v", "Rust/Script.v", "Ref/RwCell.v"],
+    model_targets=["Rust/Script.vo"],
+    proof_files=["Proofs/RwProof.v", "Proofs/RwStep.v", "Proofs/RwPin.v", "Proofs/AnsInv.v", "Proofs/AnsR.v",
+                 "Proofs/AnsC.v", "Tie/Entry.v", "Tie/CallGraph.v", "Props/C07.v"],
+    proof_targets=["Props/C07.vo"],
+    props_module="Props.C07",
+    theorems=["C07_code_follows_the_lock_discipline", "C07_no_torn_read", "C07_guard_pins",
+              "C07_change_needs_write_lock", "C07_only_passes_write",
+              "C07_update_happens_inside_the_callers_hot_reload",
+              "C07_hot_reload_returns_after_its_update", "C07_zero_duration_lock_is_rejected_and_tears"],
+    engines=[("rwdiff", [])],
+    thorough_features=[["parking_lot"]],
+    rule="rwdiff: 4 scenarios of short / long-held / mapped (map+try_map) readers, watcher pollers and an "
+         "outside-hot_reload sampler against a stream of edit+notify+hot_reload of a 64-word self-checking "
+         "value; monitors: torn-read, guard-not-pinned (value, reload id, id==version under a guard), "
+         "changed-outside-hot_reload, hot_reload-returned-early.  Non-trivial/distinct = scenario "
+         "(each performs thousands of guarded reads; counts in the summary).",
+    trusted_base=["RwLock semantics (mutual exclusion writer/readers)", "the scheduler explores interleavings "
+                  "only by chance in the runs; the theorem covers all of them"],
+    modelled=["the value as K words copied one per step; the RwLock as reader set + optional writer; "
+              "threads as first-order scripts; the reload id as a counter bumped by IncReload"],
+    assumptions=["memory orderings not modelled", "callers of hot_reload hold no guard"],
+)
